@@ -7,7 +7,7 @@ EXPLANATION = ('Value-flow normal forms of the public stats::split_rhat_mean_ess
                'W = mean_j (1/d) sum_t (x_jt - mean_j)^2 with d in {h, h-1}, var+ = (h-1)/h W + B/h; R-hat = sqrt(var+/W) (orientation); '
                'RunStats::from / from_f32_view agree; basic_stats reports the ends of the sorted data in the direction of the sort, the element at '
                'len div 2, mean and ddof-1 standard deviation; the sort comparator is a total order (total_cmp), never partial_cmp with None mapped to Equal.')
-FLOORS = {'obligations': 12}   # counted on the reference tree; fewer instantiated obligations is reported, never passed silently
+FLOORS = {'obligations': 14}   # counted on the reference tree; fewer instantiated obligations is reported, never passed silently
 TECHNIQUE = 'value-flow normal form vs specification table (role-located helpers, ndarray access canonicalisation)'
 SAMPLE = S('sample')
 R3 = {SAMPLE: 3}
@@ -44,6 +44,8 @@ def roles(ctx):
 
 
 def run(ctx):
+    from .. import frame
+    frame.std_impls_derived(ctx, 'C11', ['stats::RunStats', 'stats::BasicStats'])
     A = 'stats::split_rhat_mean_ess'
     b, ev, bodies = roles(ctx)
     names = ['C11.wiring', 'C11.split', 'C11.B_W_varplus', 'C11.ratio']
